@@ -175,6 +175,34 @@ def IOp.blockOk : IOp → Bool
 /-- the chunk fetched but not yet stored (empty when there is none) -/
 def IWorld.held (iw : IWorld) : Bytes := iw.chunk.getD []
 
+/-! ### ICY framing: which bytes of a response body are audio -/
+
+/-- reader state: `audio u` = `u` audio bytes before the next length byte; `skip k` =
+    `k + 1` metadata bytes still to skip -/
+inductive IcyMode
+  | audio (u : Nat) | skip (k : Nat)
+  deriving DecidableEq, Repr
+
+/-- the audio bytes of an ICY body, byte by byte (the format, not the code): after every
+    `M` audio bytes one length byte `l`, then `16 * l` bytes of metadata -/
+def icyAudio (M : Nat) : IcyMode → Bytes → Bytes
+  | _, [] => []
+  | .audio 0, x :: t =>
+      match 16 * x.toNat with
+      | 0 => icyAudio M (.audio M) t
+      | k + 1 => icyAudio M (.skip k) t
+  | .audio (u + 1), x :: t => x :: icyAudio M (.audio u) t
+  | .skip 0, _ :: t => icyAudio M (.audio M) t
+  | .skip (k + 1), _ :: t => icyAudio M (.skip k) t
+
+/-- what the consumer of an HTTP stream must receive: the body itself without
+    `icy-metaint`, its audio bytes with -/
+def audioOf (M : Nat) (W : Bytes) : Bytes := if M = 0 then W else icyAudio M (.audio M) W
+
+/-- the audio still to come from the not yet downloaded part of the body -/
+def IWorld.view (iw : IWorld) : Bytes :=
+  if iw.metaint = 0 then iw.w.src.rest else icyAudio iw.metaint (.audio iw.untilMeta) iw.w.src.rest
+
 /-! ### reading traces -/
 
 def Res.bytes : Res → Bytes
